@@ -70,6 +70,7 @@ type Scenario struct {
 	Note  string `json:"note,omitempty"`
 	Force bool   `json:"forceAdoption,omitempty"`
 	Tmpls []SetSpec `json:"tmpls,omitempty"` // deployment template pool
+	Pkgs  []PkgDesc `json:"pkgs,omitempty"`  // package image pool: image i is built from Pkgs[i]
 	// Lag: ObjectSets created since the last "sync" step are invisible to the ObjectDeployment controller's reads
 	Lag bool `json:"lag,omitempty"`
 	// GracefulWidgets: Widgets are deleted gracefully (stay terminating without finalizers until the "kubelet" step)
@@ -123,6 +124,9 @@ type Runner struct {
 	KeepViews bool
 	// LastQuiesceOK: the last quiesce step reached a fixpoint
 	LastQuiesceOK bool
+	// EnvIdx is the index of the current environment variant; pullsBefore snapshots pull counters at pass start
+	EnvIdx      int
+	pullsBefore map[string]int
 	// probeRegistry maps the canonical JSON of rendered availabilityProbes to their reference form.
 	probeRegistry map[string][]refmodel.RObjectSetProbe
 }
@@ -170,6 +174,7 @@ func NewRunner(sc *Scenario, mons ...Monitor) *Runner {
 		os.Unsetenv(constants.ForceAdoptionEnvironmentVariable)
 	}
 	r.W.Store.BeforeCall = r.beforeCall
+	r.InstallImages()
 	if sc.GracefulWidgets {
 		r.W.Store.Graceful = map[schema.GroupKind]bool{engine.GVKWidget.GroupKind(): true}
 	}
@@ -623,6 +628,10 @@ func (r *Runner) ExistingOf(ctrlName string) []kubesim.Key {
 func (r *Runner) Reconcile(ctrlName string, key kubesim.Key) (*PassView, error) {
 	if r.faultKind != kubesim.FaultNone {
 		r.Labels["fault-armed"] = true
+	}
+	r.pullsBefore = map[string]int{}
+	for k, v := range r.W.Puller.Pulls {
+		r.pullsBefore[k] = v
 	}
 	p := r.W.RunPass(ctrlName, engine.Req(key.Namespace, key.Name))
 	r.faultKind = kubesim.FaultNone
